@@ -55,14 +55,15 @@ XS = {"a": [0.25, -0.5], "b": [-1.0, 0.125], "c": [0.0, 0.0],
 
 
 class Harness:
-    def __init__(self, inst, variant: str, models: dict, xs: dict) -> None:
+    def __init__(self, inst, variant: str, models: dict, xs: dict, supports: bool = True) -> None:
         from moptipyapps.dynamic_control.objective import FigureOfMerit, FigureOfMeritLE
         self.cls = FigureOfMerit if variant == "mean" else FigureOfMeritLE
         self.variant = variant
         self.inst = inst
         self.models = models
         self.xs = xs
-        self.obj = self.cls(inst, True)
+        self.supports = supports
+        self.obj = self.cls(inst, supports)
         self.fresh = {}
         s = inst.system
         self.ncases = len(s.training_starting_states)
@@ -116,6 +117,8 @@ class Harness:
         name = "_FigureOfMerit__collection_"
         sc = getattr(self.obj, name + "sc")
         df = getattr(self.obj, name + "df")
+        if sc is None or df is None:      # an objective without model support keeps no lists
+            return 0, 0
         return small(sum(len(a) for a in sc)), small(sum(len(a) for a in df))
 
     def run(self, cid: str, hist: list) -> dict:
@@ -129,6 +132,20 @@ class Harness:
             elif a[0] == "raw":
                 self.obj.set_raw()
                 mode = "raw"
+            elif a[0] == "model" and not self.supports:
+                st["m"] = a[1]
+                try:
+                    self.obj.set_model(self.models[a[1]])
+                    st["refused"] = 0
+                    mode = a[1]       # (it was accepted: whatever follows is judged by the specification)
+                except ValueError:
+                    st["refused"] = 1
+            elif a[0] == "diff" and not self.supports:
+                try:
+                    self.obj.get_differentials()
+                    st["refused"] = 0
+                except ValueError:
+                    st["refused"] = 1
             elif a[0] == "model":
                 self.obj.set_model(self.models[a[1]])
                 mode = a[1]
@@ -149,6 +166,7 @@ class Harness:
             st["sc"], st["df"] = self.rows()
             steps.append(st)
         return {"id": cid, "ncases": self.ncases, "rowsper": self.rowsper, "variant": self.variant,
+                "supports": 1 if self.supports else 0,
                 "fresh": list(self.fresh.values()), "steps": steps,
                 "history": [list(a) for a in hist]}
 
@@ -267,9 +285,12 @@ def run(prop: str, tier: str, seed: int) -> int:
     rng = random.Random(seed * 5915587277 + 11)
     maxlen = {"quick": 3, "thorough": 4}[tier]
     cfg = ('SPECIFICATION Spec\nCONSTANTS Xs = {"a", "b", "bad1", "bad2"}\n Models = {"m1"}\n NCases = 3\n'
-           ' FailAt <- FailAtDef\n MaxLen = %d\nINVARIANT DataIsFunctionOfHistory\nPROPERTY GrowsOnlyInRaw\n' % (maxlen + 2))
+           ' FailAt <- FailAtDef\n MaxLen = %d\n Supports = TRUE\nINVARIANT DataIsFunctionOfHistory\nINVARIANT NoSupportIsInert\n'
+           'PROPERTY GrowsOnlyInRaw\n' % (maxlen + 2))
     res = tlc.run("dyn/MC_FoM", cfg_text=cfg, workers=16, timeout=900)
     rep.add_mc(f"FoM history machine, all histories up to length {maxlen + 2}", res)
+    res = tlc.run("dyn/MC_FoM", cfg_text=cfg.replace("Supports = TRUE", "Supports = FALSE"), workers=16, timeout=900)
+    rep.add_mc(f"FoM history machine without model support, all histories up to length {maxlen + 2}", res)
     cfg = cfg.replace("MaxLen = %d" % (maxlen + 2), "MaxLen = %d" % maxlen)
     dump = tlc.work_dir("gen") / "fom.dump"
     hists = []
@@ -304,6 +325,17 @@ def run(prop: str, tier: str, seed: int) -> int:
             cases.append(h.run(f"tlc-{variant}-{k}", hist))
         rep.family(f"tlc-generated-histories-{variant}", len(hs), len(hs))
         rep.nontrivial += len(hs)
+        # the same histories on objectives WITHOUT model support (the default): set_model / get_differentials are
+        # refused and must leave the objective on the real equations
+        h0 = Harness(inst, variant, {"m1": _eq_model}, xs, supports=False)
+        h0.fresh = h.fresh
+        hs0 = [q for q in hs if any(a[0] in ("model", "diff") for a in q)]
+        hs0 = hs0 if len(hs0) <= 120 else rng.sample(hs0, 120)
+        for k, hist in enumerate(hs0):
+            h0.obj = h0.cls(inst, False)
+            cases.append(h0.run(f"nosupport-{variant}-{k}", hist))
+        rep.family(f"histories-without-model-support-{variant}", len(hs0), len(hs0))
+        rep.nontrivial += len(hs0)
         # long random histories on one object
         for k in range({"quick": 25, "thorough": 250}[tier]):
             hist = []
